@@ -94,7 +94,9 @@ def blockzero_safe(content, msgs, bsz, preamble=b""):
 
 
 def gen_sources(rng, n_sources, bsz, max_msgs=12, containers=("plain",), tie_heavy=True,
-                allow_degenerate=True, special=0.0, first_line_max=None, t0=None, letter_base=0):
+                allow_degenerate=True, special=0.0, first_line_max=None, t0=None, letter_base=0,
+                crlf_p=0.0, blank_p=0.1, preamble_p=0.0, frac_choices=(3, 3, 6, 9, 1), safe_sizes=None,
+                notations=(1, 1, 1, 2, 3, 0)):
     """Text sources with instants drawn from a small common pool (ties inside and across sources)."""
     t0 = t0 if t0 is not None else 946684800_000_000_000 + rng.randrange(0, 20 * 365) * 86400_000_000_000
     pool_n = rng.choice((2, 3, 5, 8, 30)) if tie_heavy else 10000
@@ -122,27 +124,39 @@ def gen_sources(rng, n_sources, bsz, max_msgs=12, containers=("plain",), tie_hea
         n = rng.choice((1, 1, 2, 3, 5, 6, 7, 9, 12, max_msgs))
         n = min(n, max_msgs)
         inst = sorted(rng.choice(pool) for _ in range(n))
-        notation = rng.choice((1, 1, 1, 2, 3, 0))
+        notation = rng.choice(notations)
         off = rng.choice(world.OFFSETS_HOUR if notation == 3 else world.OFFSETS_ALL)
         if notation == 0:
             off = 0  # zone-less stamps are written in UTC and the run passes --tz-offset +00:00
         p = world.TextLogParams(notation=notation, off_min=off, vary_offset=rng.random() < 0.3,
-                                n_msgs=n, src_letter=letter, bsz=bsz if rng.random() < 0.5 else 0,
+                                n_msgs=n, src_letter=letter, bsz=bsz if (rng.random() < 0.5 and bsz <= 4096) else 0,
                                 cont_p=rng.choice((0.0, 0.3, 0.6)), special=special,
                                 final_newline=rng.random() < 0.8, instants=inst,
-                                frac_digits=rng.choice((3, 3, 6, 9, 1)),
+                                frac_digits=rng.choice(frac_choices), crlf_p=crlf_p, blank_p=blank_p,
+                                preamble_lines=(rng.randint(1, 3) if rng.random() < preamble_p else 0),
                                 body_len=(0, rng.choice((10, 40, 120))))
         if first_line_max is not None:
             p.boundary_p = 0.15
             p.long_p = 0.0
-        content, msgs, _ = world.gen_text_log(rng, p)
+        content, msgs, pre = world.gen_text_log(rng, p)
         lim = first_line_max if first_line_max is not None else bsz
-        while msgs and (first_line_end(msgs) > lim or not blockzero_safe(content, msgs, bsz)):
+        sizes = safe_sizes or (bsz,)
+        tries = 0
+        while msgs and (first_line_end(msgs, pre) > lim or not all(blockzero_safe(content, msgs, b, pre) for b in sizes)):
             # keep the first timestamped line inside block zero: otherwise s4 silently drops the whole
             # file (known finding F-C12a); the bulk of generated scenarios is steered away from it
+            tries += 1
             p.bsz = 0
-            p.body_len = (0, 20)
-            content, msgs, _ = world.gen_text_log(rng, p)
+            p.body_len = (0, 20 if tries < 3 else 4)
+            if tries >= 2:
+                p.preamble_lines = 0
+            if tries >= 4:
+                p.long_p = 0.0
+                p.cont_p = 0.0
+                p.n_msgs = max(p.n_msgs, 4)
+                if p.instants is not None and len(p.instants) < p.n_msgs:
+                    p.instants = sorted(list(p.instants) + [p.instants[-1]] * (p.n_msgs - len(p.instants)))
+            content, msgs, pre = world.gen_text_log(rng, p)
         kind = rng.choice(containers)
         stored, descr = world.random_container(rng, kind, content, mtime=0, name=name)
         sources.append(Source(name + world.SUFFIX[kind], "text", msgs, stored, content, kind, descr))
